@@ -2,6 +2,8 @@
    harness (Rust, real code) and this model decode it the same way and print a
    canonical text result. The case reader is the Buffer model itself. *)
 From GD Require Import Base.Prelude Model.Strings Model.Buffer Model.Unreal2Str Model.BufOps.
+From GD Require Import Model.Net Model.Valve Model.ValveShow.
+From GD Require Import Spec.Rand Spec.ValveSpec Spec.ValveGen Spec.CaseEnc.
 
 Definition rd_u8 : R N := read_uint true 1.
 Definition rd_u16 : R N := read_uint true 2.
@@ -82,6 +84,120 @@ Definition case_string_rt : R bytes :=
     end
   else ret (str "NOT-UTF8").
 
+(* ---- query cases: settings and scripts ---- *)
+Definition rd_u64 : R N := read_uint true 8.
+Definition rd_opt {A} (rd : R A) : R (option A) :=
+  let* t := rd_u8 in if t =? 0 then ret None else let* x := rd in ret (Some x).
+Definition rd_dur : R duration := let* s := rd_u64 in let* n := rd_u32 in ret (s, n).
+(* Option<TimeoutSettings> built through TimeoutSettings::new *)
+Definition rd_tsettings : R (outcome (option tsettings)) :=
+  let* t := rd_u8 in
+  if t =? 0 then ret (Ok None)
+  else
+    let* c := rd_opt rd_dur in
+    let* r := rd_opt rd_dur in
+    let* w := rd_opt rd_dur in
+    let* retries := rd_u64 in
+    ret (omap Some (ts_new r w c retries)).
+Definition rd_udp_event : R udp_event :=
+  let* t := rd_u8 in
+  if t =? 0 then ret Timeout else let* d := rd_bytes32 in ret (Datagram d).
+Definition rd_tcp_conn : R tcp_conn :=
+  let* t := rd_u8 in
+  if t =? 0 then ret Refused else let* d := rd_bytes32 in ret (Stream d (t =? 2)).
+Definition rd_script : R net :=
+  let* nu := rd_u16 in
+  let* u := rd_list (N.to_nat nu) rd_udp_event in
+  let* nt := rd_u16 in
+  let* t := rd_list (N.to_nat nt) rd_tcp_conn in
+  let* nf := rd_u8 in
+  let* f := rd_list (N.to_nat nf) rd_u16 in
+  ret (net_init u t f).
+Definition rd_toggle : R toggle :=
+  let* t := rd_u8 in ret (if t =? 0 then Skip else if t =? 1 then Try else Enforce).
+
+(* bzip2 oracle table: (payload, size) -> result *)
+Definition bz_entry := (bytes * N * option bytes)%type.
+Definition rd_bz_entry : R bz_entry :=
+  let* p := rd_bytes32 in let* sz := rd_u32 in
+  let* r := rd_opt rd_bytes32 in ret (p, sz, r).
+Definition site_oracle_miss : N := 99.
+Fixpoint bz_lookup (t : list bz_entry) (p : bytes) (sz : N) : outcome bytes :=
+  match t with
+  | [] => Panic site_oracle_miss
+  | (p', sz', r) :: t' =>
+      if bytes_eqb p p' && (sz =? sz') then match r with Some d => Ok d | None => Err Decompress end
+      else bz_lookup t' p sz
+  end.
+
+Definition show_query {A} (f : A -> bytes) (res : outcome A * net) : bytes :=
+  (match fst res with
+   | Panic 99 => str "ORACLE-MISS"
+   | o => show_outcome f o
+   end) ++ str "|" ++ show_trace (snd res).
+
+Definition rd_engine : R engine :=
+  let* t := rd_u8 in
+  if t =? 0 then ret (Source None)
+  else if t =? 1 then let* a := rd_u32 in ret (Source (Some (a, None)))
+  else if t =? 2 then let* a := rd_u32 in let* d := rd_u32 in ret (Source (Some (a, Some d)))
+  else if t =? 3 then ret (GoldSrc false)
+  else ret (GoldSrc true).
+Definition rd_gathering : R gathering :=
+  let* p := rd_toggle in let* r := rd_toggle in let* c := rd_u8 in ret (mk_gather p r (negb (c =? 0))).
+
+(* family 10: valve::query *)
+Definition case_valve : R bytes :=
+  let* port := rd_u16 in
+  let* e := rd_engine in
+  let* g := rd_opt rd_gathering in
+  let* ts := rd_tsettings in
+  let* n := rd_script in
+  let* nb := rd_u8 in
+  let* bzt := rd_list (N.to_nat nb) rd_bz_entry in
+  match ts with
+  | Ok t => ret (show_query show_response (Valve.query (bz_lookup bzt) port e g t n))
+  | o => ret (show_outcome (fun _ => []) o ++ str "|")
+  end.
+
+(* family 110: Valve spec case: seed (+ optional compressed blobs) ->
+   settings | datagrams | bz table | expected | tags *)
+Definition show_transport (t : transport) : bytes :=
+  match t with
+  | Single => str "single"
+  | SplitSrc c _ _ => str "src" ++ show_N (lenN c + 1)
+  | SplitGold c _ => str "gold" ++ show_N (lenN c + 1)
+  | SplitBz c _ _ _ => str "bz" ++ show_N (lenN c + 1)
+  end.
+Definition bz_entries (o : reply_opts) (payload : bytes) : list bytes :=
+  match ro_transport o with
+  | SplitBz _ _ _ comp =>
+      let pkt := simple_header ++ payload in
+      [enc_bytes32 comp ++ be32 (lenN pkt) ++ 1 :: enc_bytes32 pkt]
+  | _ => []
+  end.
+Definition case_spec_valve : R bytes :=
+  let* seed := rd_u64 in
+  let* c1 := rd_opt rd_bytes32 in let* c2 := rd_opt rd_bytes32 in let* c3 := rd_opt rd_bytes32 in
+  let '(e, g, st, o) := fst (gen_valve (c1, c2, c3) seed) in
+  let gg := match g with Some x => x | None => gathering_default end in
+  let port := 27015 + seed mod 5 in
+  let settings := [10] ++ be16 port ++ enc_engine e ++ enc_opt enc_gathering g ++ enc_tsettings None in
+  let dgs := valve_script st o gg in
+  let p1 := enc_info (vs_info st) in let p2 := enc_players (vs_players st) in let p3 := enc_rules (vs_rules st) in
+  let bzs := bz_entries (vo_info o) p1 ++ bz_entries (vo_players o) p2 ++ bz_entries (vo_rules o) p3 in
+  ret (show_hex settings ++ str "|" ++ intercalate (str ",") (map show_hex dgs) ++ str "|"
+       ++ show_hex (lenN bzs :: concat bzs) ++ str "|"
+       ++ show_outcome show_response (valve_expected_outcome st e gg) ++ str "|"
+       ++ str "wf=" ++ show_bool (wf_state e st)
+       ++ str ";np=" ++ show_N (lenN (vs_players st)) ++ str ";nr=" ++ show_N (lenN (vs_rules st))
+       ++ str ";t=" ++ show_transport (ro_transport (vo_info o)) ++ str "/" ++ show_transport (ro_transport (vo_players o))
+       ++ str "/" ++ show_transport (ro_transport (vo_rules o))
+       ++ str ";ch=" ++ show_N (lenN (ro_challenges (vo_info o))) ++ show_N (lenN (ro_challenges (vo_players o)))
+       ++ show_N (lenN (ro_challenges (vo_rules o)))
+       ++ str ";port=" ++ show_N port
+       ++ str ";pk=" ++ show_hex (simple_header ++ p1) ++ str "," ++ show_hex (simple_header ++ p2) ++ str "," ++ show_hex (simple_header ++ p3)).
+
 Definition run_case_R : R bytes :=
   let* fam := rd_u8 in
   if fam =? 1 then case_bufops
@@ -91,6 +207,8 @@ Definition run_case_R : R bytes :=
   else if fam =? 5 then case_expected_size
   else if fam =? 6 then case_varint_rt
   else if fam =? 7 then case_string_rt
+  else if fam =? 10 then case_valve
+  else if fam =? 110 then case_spec_valve
   else fail InvalidInput.
 
 Definition run_case (c : bytes) : bytes :=
